@@ -122,7 +122,7 @@ def _run_cvc5(smt2, timeout_ms):
 def solve_one(job):
     """job = (idx, smt2, names, z3_ms, cvc5_ms[, smt2_without_quantified_axioms])"""
     idx, smt2, names, z3_ms, cvc5_ms = job[:5]
-    qfree = job[5] if len(job) > 5 else None
+    qfree = job[5] if len(job) > 5 and job[5] != 'retry' else None
     if qfree is not None:
         # lemma axioms (quantified) dropped: unsat here is unsat of the full query
         r0, m0, t0, reason0 = _run_z3(qfree, names, z3_ms)
@@ -149,7 +149,18 @@ def solve_one(job):
             if res3 == 'sat':
                 out['model'] = model3
                 out['z3'] = 'sat'
+    if verdict(out) == 'unknown' and not job_retry(job):
+        # second chance with four times the budget: a verdict must not flip to 'undecided' because the machine is busy
+        out2 = solve_one(tuple(job[:3]) + (z3_ms * 4, cvc5_ms * 4) + tuple(job[5:6]) + ('retry',))
+        out2['z3_s'] = round(out2['z3_s'] + out['z3_s'], 3)
+        out2['cvc5_s'] = round(out2['cvc5_s'] + out['cvc5_s'], 3)
+        out2['retried'] = True
+        return out2
     return out
+
+
+def job_retry(job):
+    return len(job) > 5 and job[-1] == 'retry'
 
 
 def verdict(out):
